@@ -360,7 +360,7 @@ def parseGW (s : String) : Option GW :=
   | _ => none
 
 /-- returns (reasons, number of windows checked) -/
-def judgeGlueOne (period start stop : Int) (ws : List GW) : List String × Nat := Id.run do
+def judgeGlueOne (period start stop : Int) (ws : List GW) : List String × Nat × Int := Id.run do
   let mut bad : List String := []
   -- never backwards
   let mut prev : Option Int := none
@@ -382,7 +382,13 @@ def judgeGlueOne (period start stop : Int) (ws : List GW) : List String × Nat :
       let cnt : Int := (refreshes.filter fun t => a < t && t ≤ a + k * period).length
       if cnt < max (1 : Int) (k - 2) then bad := "heartbeat-not-refreshed-in-window" :: bad
       k := k + 1
-  return (bad.eraseDups, nwin)
+  -- longest time without a refresh between two anchors (for the tier used under load)
+  let mut maxGap : Int := 0
+  let mut last : Int := start
+  for t in refreshes do
+    if t - last > maxGap then maxGap := t - last
+    last := t
+  return (bad.eraseDups, nwin, maxGap)
 
 def handleGlueLag (lcs : String) (lag : Nat) : String × String × String :=
   match ["", lcs] with
@@ -392,17 +398,22 @@ def handleGlueLag (lcs : String) (lag : Nat) : String × String × String :=
       | [_id, kind, period, start, stop, writes] =>
         match period.toInt?, start.toInt?, stop.toInt?, (if writes == "-" then some [] else (writes.splitOn ",").mapM parseGW) with
         | some p, some a, some b, some ws =>
-          if p ≤ 0 then (["glue-bad-period"], 0, kind) else
+          if p ≤ 0 then (["glue-bad-period"], 0, kind, false) else
           let r := judgeGlueOne p a b ws
-          (r.1, r.2, kind)
-        | _, _, _, _ => (["glue-unparsable"], 0, kind)
-      | _ => (["glue-unparsable"], 0, "?")
+          -- under load (second tier): no refresh for three periods plus the measured scheduling delay
+          (r.1, r.2.1, kind, decide (r.2.2 ≥ 3 * p + (lag : Int)))
+        | _, _, _, _ => (["glue-unparsable"], 0, kind, false)
+      | _ => (["glue-unparsable"], 0, "?", false)
     let bad := (res.flatMap (·.1)).eraseDups
     let nwin : Nat := res.foldl (fun acc r => acc + r.2.1) 0
-    let kinds := "".intercalate (res.map (·.2.2))
-    -- a starved harness process (scheduling delays above 400 ms) says nothing about the lifecycler's ticker
+    let kinds := "".intercalate (res.map (·.2.2.1))
+    -- a starved harness process (scheduling delays above 400 ms) says nothing about the lifecycler's ticker: the window rule
+    -- is dropped; up to 800 ms a gap of 3 periods + the delay is still judged (a late beat costs at most ~2x the delay, a
+    -- dropped tick one period: 2P + 2·lag < 3P + lag), above that nothing is
     let overloaded := lag > 400
-    ("-", (if bad.isEmpty || (overloaded && bad == ["heartbeat-not-refreshed-in-window"]) then "-" else ",".intercalate bad),
+    let longGap := overloaded && lag ≤ 800 && res.any (·.2.2.2)
+    let bad := if overloaded then (bad.filter (· != "heartbeat-not-refreshed-in-window")) ++ (if longGap then ["heartbeat-not-refreshed-for-3-periods"] else []) else bad
+    ("-", (if bad.isEmpty then "-" else ",".intercalate bad),
       s!"glue=1 kinds={kinds} windows={if nwin == 0 then "0" else if nwin < 10 then "1-9" else "10+"}" ++ (if overloaded then " overloaded=1" else ""))
   | _ => ("bad-fields", "-", "glue=1")
 
@@ -613,10 +624,92 @@ def handleLoop (f : List String) : String × String × String :=
     | _, _ => ("bad-input", "-", "loop=1")
   | _ => ("bad-fields", "-", "loop=1")
 
+/-! ### race stream: a registration that loses the compare-and-swap
+
+`C08.race <case> <cfgA;cfgB> <initial store> <A attempt 1> <B> <A attempt 2> <final A> <final B>`, attempt = `now!gen!in>out`:
+BasicLifecycler A registers; after its callback ran and before the store compared, B registered; the store re-ran A's
+callback on the fresh ring.
+* diff  : each attempt must be the model's registration handler on the ring it read (`PC08.cas_retry_is_rerun`: the
+          retry is the handler re-run on the fresh ring, from the same remembered state), the remembered entries at the end
+          are those of the committed attempts.
+* judge : on the COMMITTED writes (A's second attempt, B's only one): frame / edges / registration judge of the run
+          stream, and "tokens the registering instance did not hold in the ring its write is based on are nobody else's
+          there". -/
+
+structure Attempt where
+  now : Int
+  genReq : String
+  reply : List Nat
+  din : Option Desc
+  out : String
+
+def parseAttempt (s : String) : Option Attempt :=
+  match s.splitOn "!" with
+  | [now, gen, cas] =>
+    match cas.splitOn ">", now.toInt? with
+    | [a, b], some now =>
+      match parseStore a with
+      | some din =>
+        let (req, reply) : String × List Nat := match gen.splitOn "^" with
+          | [n, t, r] => (n ++ "^" ++ t, (natList? r).getD [])
+          | _ => ("-", [])
+        some { now := now, genReq := req, reply := reply, din := din, out := b }
+      | none => none
+    | _, _ => none
+  | _ => none
+
+def raceModel (c : Cfg) (a : Attempt) : Res := step c {} .absent a.din (.init []) a.now (fun _ _ => a.reply) .none
+
+def raceDiff (who : String) (c : Cfg) (a : Attempt) : Option String :=
+  let r := raceModel c a
+  if mOutOf r.out != a.out then some s!"{who}:cas model={mOutOf r.out}"
+  else if showGenReq r.genReq != a.genReq then some s!"{who}:gen model={showGenReq r.genReq}"
+  else none
+
+def raceJudge (c : Cfg) (a : Attempt) : List String :=
+  if !a.out.startsWith "W" then [] else
+  match parseDesc (a.out.drop 1).toString with
+  | none => ["unparsable-write"]
+  | some dout =>
+    let din := a.din.getD []
+    let ringToks := match din.get? c.id with | some x => !x.tokens.isEmpty | none => false
+    let nd : Node := { cfg := c, inherited := ringToks, joined := true, inits := 1, generated := !a.reply.isEmpty }
+    let own0 := match din.get? c.id with | some x => x.tokens | none => []
+    let taken := match dout.get? c.id with
+      | some b => b.tokens.any (fun t => !own0.contains t && din.any (fun i => i.id != c.id && i.tokens.contains t))
+      | none => false
+    judgeWrite nd "init" "" a.now din dout a.reply true ++ (if taken then ["registered-token-taken-by-other"] else [])
+
+def handleRace (f : List String) : String × String × String :=
+  match f with
+  | [_case, cfgs, init, a1, b1, a2, finA, finB] =>
+    match cfgs.splitOn ";" |>.map parseCfg, parseStore init, parseAttempt a1, parseAttempt b1, parseAttempt a2 with
+    | [some ca, some cb], some st0, some a1, some b1, some a2 =>
+      let afterB : Option Desc := if b1.out.startsWith "W" then parseDesc (b1.out.drop 1).toString else st0
+      let fin (c : Cfg) (a : Attempt) : String := showLocal c (raceModel c a).l
+      let diffs : List (Option String) :=
+        [ if showStore a1.din != showStore st0 then some "A1:did-not-read-initial-store" else none,
+          if showStore b1.din != showStore st0 then some "B:did-not-read-initial-store" else none,
+          if showStore a2.din != showStore afterB then some "A2:did-not-read-fresh-ring" else none,
+          raceDiff "A1" ca a1, raceDiff "B" cb b1, raceDiff "A2" ca a2,
+          if fin ca a2 != finA then some s!"finalA model={fin ca a2}" else none,
+          if fin cb b1 != finB then some s!"finalB model={fin cb b1}" else none ]
+      let diff := (diffs.filterMap id).headD "-"
+      let bad := (raceJudge cb b1 ++ raceJudge ca a2).eraseDups
+      let toksOf (a : Attempt) (id : String) : List Nat := match (if a.out.startsWith "W" then parseDesc (a.out.drop 1).toString else none) with
+        | some d => (match d.get? id with | some i => i.tokens | none => []) | none => []
+      let clash := (toksOf a1 ca.id).any ((toksOf b1 cb.id).contains ·)
+      let ownOld := match (st0.getD []).get? ca.id with | some _ => "yes" | none => "no"
+      (diff, if bad.isEmpty then "-" else ",".intercalate bad,
+        s!"race=1 tokens={ca.numTokens} stale-choice-clashes={if clash then "yes" else "no"} own-entry={ownOld} states={ca.registerState.code}{cb.registerState.code}")
+    | _, _, _, _, _ => ("bad-input", "-", "race=1")
+  | _ => ("bad-fields", "-", "race=1")
+
 def handle (cmd : String) (f : List String) : String × String × String :=
   if cmd == "C08.run" then handleRun f
   else if cmd == "C08.loop" then handleLoop f
   else if cmd == "C08.glue" then handleGlue f
+  else if cmd == "C08.race" then handleRace f
   else ("unknown-cmd", "-", "-")
 
 end OracleC08
